@@ -63,7 +63,8 @@ def components : List Comp := [
   ⟨"lbaperture", Scales.LB.comp5.run⟩,
   ⟨"aperture", Scales.LB.comp6.run⟩,
   ⟨"resurrector", Scales.Res.comp.run⟩,
-  ⟨"respool", Scales.Pool.comp.run⟩
+  ⟨"respool", Scales.Pool.comp.run⟩,
+  ⟨"lbgate", Scales.LB.compGate.run⟩
 ]
 
 structure CaseAcc where
